@@ -6,7 +6,7 @@ import Mathlib.Tactic.Positivity
 import Mathlib.Tactic.Push
 import Mathlib.Data.Int.ModEq
 import Mathlib.Tactic.LinearCombination
-import Ruint.Model.DivCore
+import Ruint.Model.DivRecip
 import Ruint.Gen.RecipTableFacts
 
 /-! Error analysis of MG10 Algorithm 3 (`reciprocal_mg10`) — integer form, no rationals.
